@@ -1,5 +1,6 @@
 import Driver.Util
 import Lattigo.Model.SamplerSession
+import Lattigo.Model.SamplerPRNG
 
 /-
   C17 driver.  Ops (all self-contained):
@@ -18,6 +19,9 @@ import Lattigo.Model.SamplerSession
     randu v mask stream=<desc>      ring.RandUniform: `<value>@<consumed>`
     randint max stream=<desc>       bignum.RandInt:  `<value>@<consumed>`
     mask q                          SubRing.Mask
+    prng key=<hex> xof=<hex> ops=<o,o,…>   sampling.KeyedPRNG as (key, position); `xof` = the first
+        bytes of the BLAKE2b-XOF output for `key` (the oracle); ops: r<n> Read n bytes, reset, k Key(),
+        rekey (continue with NewKeyedPRNG(p.Key())).  out: `|`-joined: bytes (hex), `k:<hex>`, `.`
   stream descriptor: segments joined by `+`:  x<hex> | r<2 hex digits>*<count> | s<seed>*<count>
   (SplitMix64 bytes, little endian).
 -/
@@ -215,6 +219,26 @@ def handle (toks : List String) : String :=
       | .ok (v, s) => some (toString v ++ "@" ++ toString (stream.length - s.length))
       | .exhausted => some "exhausted"
       | .panic => some "panic"
+    | "prng" :: rest => do
+      let key ← parseHex? (← kv? rest "key")
+      let table ← parseHex? (← kv? rest "xof")
+      let ops ← parseList? (fun (o : String) =>
+        if o == "reset" then some PRNG.Op.reset
+        else if o == "k" then some PRNG.Op.key
+        else if o == "rekey" then some PRNG.Op.rekey
+        else match o.toList with
+          | 'r' :: n => (String.ofList n).toNat?.map PRNG.Op.read
+          | _ => none) "," (← kv? rest "ops")
+      let tab := table.toArray
+      -- the oracle: the stream of `key` is the table; any other key gets a different stream
+      let xof : XOF := fun k i => if k == key then tab.getD i 0 else 255 - tab.getD i 0
+      let outs := PRNG.run xof (PRNG.new key) ops
+      let parts := (ops.zip outs).map fun (o, b) =>
+        match o with
+        | .read _ => showHex b
+        | .key => "k:" ++ showHex b
+        | _ => "."
+      some ("|".intercalate parts)
     | ["mask", q] => do some (toString (maskOf (← q.toNat?)))
     | _ => none
   r.getD badOp
